@@ -202,7 +202,8 @@ NS = [0, 1, 2, 255, 256, 1000, 65535, 65536, 1000000, 2147483648, 10 ** 20]
 def _counted():
     out = []
     for n in NS:
-        for form in ("a{%d}", "a{%d,}", "a{0,%d}", "a{%d,%d}", "(?:a{%d}){2}", "(a){%d}", "a{2,%d}?"):
+        for form in ("a{%d}", "a{%d,}", "a{0,%d}", "a{%d,%d}", "(?:a{%d}){2}", "(a){%d}", "a{2,%d}?", "(?:){%d}", "(?:){0,%d}",
+                     "(){%d}", "(?:|a){%d}", "(?:(?:){%d}){%d}", "\\b{%d}", "^{%d}"):
             p = form.replace("%d", str(n))
             out.append(("counted quantifier /%s/" % p, {"p": p}))
     for n in (1, 10, 100, 255, 256, 1000, 5000):
